@@ -4,6 +4,7 @@ import (
 	"context"
 	"encoding/json"
 	"fmt"
+	"sync"
 
 	"github.com/sourcegraph/jsonrpc2"
 	lsp "pkg.nimblebun.works/go-lsp"
@@ -25,6 +26,15 @@ var (
 type server struct {
 	evaler    *eval.Evaler
 	documents map[lsp.DocumentURI]document
+	// The number of document updates handled so far; gives each update its
+	// sequence number. Only used by the goroutine handling requests.
+	updates int
+	// Diagnostics are published from a goroutine per update. The mutex
+	// serializes them, and published records the sequence number of the latest
+	// update whose diagnostics went out for each document, so that those of an
+	// older text never overwrite them on the client.
+	publishMu sync.Mutex
+	published map[lsp.DocumentURI]int
 }
 
 type document struct {
@@ -34,7 +44,9 @@ type document struct {
 }
 
 func newServer() *server {
-	return &server{eval.NewEvaler(), make(map[lsp.DocumentURI]document)}
+	return &server{evaler: eval.NewEvaler(),
+		documents: make(map[lsp.DocumentURI]document),
+		published: make(map[lsp.DocumentURI]int)}
 }
 
 func handler(s *server) jsonrpc2.Handler {
@@ -196,6 +208,8 @@ func (s *server) completion(_ context.Context, params lsp.CompletionParams) (any
 func (s *server) updateDocument(conn *jsonrpc2.Conn, uri lsp.DocumentURI, code string) {
 	tree, err := parse.Parse(parse.Source{Name: string(uri), Code: code}, parse.Config{})
 	s.documents[uri] = document{code, tree, err}
+	s.updates++
+	seq := s.updates
 	go func() {
 		// Convert the parse error to lsp.Diagnostic objects and publish them.
 		entries := parse.UnpackErrors(err)
@@ -208,6 +222,13 @@ func (s *server) updateDocument(conn *jsonrpc2.Conn, uri lsp.DocumentURI, code s
 				Message:  err.Message,
 			}
 		}
+		s.publishMu.Lock()
+		defer s.publishMu.Unlock()
+		if s.published[uri] > seq {
+			// The diagnostics of a newer text have already been published.
+			return
+		}
+		s.published[uri] = seq
 		conn.Notify(context.Background(), "textDocument/publishDiagnostics",
 			lsp.PublishDiagnosticsParams{URI: uri, Diagnostics: diags})
 	}()
